@@ -76,6 +76,9 @@ pub const EDGE_SIZES: [usize; 13] = [128, 257, 64, 32, 129, 256, 33, 65, 127, 25
 pub fn gen_messages(cx: &mut Cx, label: &str, tag_base: u64, small_only: bool) -> Vec<Bytes> {
     let l = if small_only && cx.run_index % 4 == 3 { cx.count("probe.list_length_at_a_power_of_two_edge"); EDGE_SIZES[cx.ch.forced("edge_size", 13, cx.run_index / 4) as usize] } else { gen_count(cx, label, small_only) };
     let mut v: Vec<Bytes> = Vec::with_capacity(l);
+    // long lists: 1 in 3 carries repeated messages (padding attributes, several empty ones)
+    let long_repeats = l > 20 && cx.ch.chance("long_list_with_repeats", 1, 3);
+    if long_repeats { cx.count("n.workload_long_list_with_repeats"); }
     for i in 0..l {
         if i > 0 && l <= 20 && cx.ch.chance("dup_msg", 1, 10) {
             let j = cx.ch.choose("dup_of", i as u64) as usize;
@@ -83,6 +86,7 @@ pub fn gen_messages(cx: &mut Cx, label: &str, tag_base: u64, small_only: bool) -
             v.push(m);
             cx.count("n.workload_duplicate_message");
         } else if l > 20 {
+            if long_repeats && i % 5 == 4 { v.push(if i % 10 == 9 { Vec::new() } else { v[i - 3].clone() }); continue; }
             v.push(bytes_for(cx.run_seed, b"msg", tag_base * 100_000 + i as u64, 1 + (i % 40)));
         } else {
             v.push(gen_message(cx, tag_base * 100_000 + i as u64));
